@@ -13,7 +13,7 @@ use prio::flp::Type;
 use prio::vdaf::prio3::Prio3;
 use prio::vdaf::test_utils::TestVectorClient;
 use prio::vdaf::xof::{IntoFieldVec, Xof, XofTurboShake128};
-use prio::vdaf::{Aggregatable, Aggregator, Collector};
+use prio::vdaf::{Aggregator, Collector};
 use pvh::engine::tape::{tape_alphabet, Tape};
 use pvh::engine::{fnv, par, Level, Run};
 use pvh::kit::ints::{addmod, modpow, IntConv, KitField};
@@ -122,7 +122,7 @@ where
                 return;
             }
             run.count("evaluations", 1);
-            match verify_report::<P3<T>, 32>(&vdaf, &verify_key, &ctx, &(), &nonce, &ps, &shares, &VerifyOpts { wire: true, tamper: None }) {
+            match verify_report::<P3<T>, 32>(&vdaf, &verify_key, &ctx, &(), &nonce, &ps, &shares, &VerifyOpts::wire()) {
                 Ok((o, _tr)) => outs.push(Some(o)),
                 Err(Failure { stage, msg }) => {
                     // small fields: the specified refusal of query randomness is the one permitted failure
